@@ -328,7 +328,7 @@ func (x *Exec) loopEntry(fr *Frame, st *State, lp *loop, prev *ssa.BasicBlock) {
 			t := ev.evalBool(inv.Text)
 			props := inv.Props
 			if len(props) == 0 {
-				props = x.safetyProps()
+				props = x.c.Props // every postcondition of the function is proved assuming the invariant
 			}
 			x.obligeX(st, "invariant-init", inv.Name()+"-init", props, t, "loop invariant holds on entry: "+inv.Text, posStr(x.prog.fset, blockPosT(b)), inv.MustFail, false)
 		}
@@ -455,7 +455,7 @@ func (x *Exec) loopBackEdge(fr *Frame, st *State, lp *loop, prev *ssa.BasicBlock
 		t := ev.evalBool(inv.Text)
 		props := inv.Props
 		if len(props) == 0 {
-			props = x.safetyProps()
+			props = x.c.Props
 		}
 		x.obligeX(st, "invariant-step", inv.Name()+"-step", props, t, "loop invariant preserved: "+inv.Text, posStr(x.prog.fset, blockPosT(b)), inv.MustFail, false)
 	}
